@@ -1,5 +1,5 @@
 (* Properties/C12.v — cleanup exact and confined; regeneration idempotent; convergence after a crash. *)
-From LN Require Import Model.Fs Proofs.FsP.
+From LN Require Import Model.Crate Model.Fs Proofs.FsP Proofs.CrateP Proofs.DetP.
 Local Open Scope nat_scope.
 
 (* exactly the files of this generation plus static-marked files remain among the .rs files of src/ and examples/ *)
@@ -8,6 +8,14 @@ Theorem C12_exact : forall plan t p, plan_wf plan -> wf t -> in_scope p = true -
    planned plan p = true \/ exists c, lookup t p = Some c /\ has_static (decode c) = true).
 Proof. exact cleanup_exact. Qed.
 Print Assumptions C12_exact.
+
+(* the same for the plan of the generated crate itself (hypothesis on the plan discharged by C02_nothing_written_twice) *)
+Theorem C12_exact_for_the_crate : forall fmt fuel h cfg tp plan t p, schemas_distinct h -> ops_distinct h ->
+  crate_plan fmt fuel h cfg tp = Ok plan -> wf t -> in_scope p = true ->
+  (lookup (gen plan t) p <> None <->
+   planned plan p = true \/ exists c, lookup t p = Some c /\ has_static (decode c) = true).
+Proof. exact crate_cleanup_exact. Qed.
+Print Assumptions C12_exact_for_the_crate.
 
 (* non-.rs files and everything outside src/ and examples/ are untouched (unless the plan itself writes there) *)
 Theorem C12_confined : forall plan t p, plan_wf plan -> wf t ->
